@@ -428,8 +428,10 @@ static void parsed_free(parsed *o) {
 	o->obj = NULL;
 }
 /* the same parse in a forked child: 1 accepted, 0 refused, -1 the child ended abnormally (`crash` = "<kind>:<function>").
- * Used by the pair tier for inputs in which a known element that needs content is empty, so that a crash there
- * (reported as a violation) does not use up the runner's limit of 40 restarts per shard */
+ * Used by the pair tier for inputs in which a known element that needs content is empty and ends the exactly sized
+ * input (where reading the first content byte leaves the buffer), so that a crash there (reported as a violation)
+ * does not use up the runner's limit of 40 restarts per shard. Forking the sanitized process is expensive, hence
+ * the narrow condition; every other input is parsed in-process under the runner's crash containment. */
 static int contained_parse(int root, const unsigned char *p, size_t n, char *crash, size_t cn) {
 	int fd[2], st = 0;
 	pid_t pid;
@@ -818,7 +820,7 @@ static void judge(base_t *b, const unsigned char *p, size_t n, const char *where
 	int v = rsch_validate(b->root, p, n, &info);
 	int res, acc;
 	const char *rn = rsch_root_name(b->root);
-	if (contain && v == RSCH_REJECT && info.empty_values > 0) {
+	if (contain && v == RSCH_REJECT && info.empty_at_end > 0) {
 		char crash[200], sig[260];
 		int r = contained_parse(b->root, p, n, crash, sizeof crash);
 		vf_obs("%d%d", v, r);
